@@ -1,5 +1,6 @@
-(* C04 — property theorems for arbitrary nesting depth (List(List(... List(T)))), every level with
-   its own bounds, every inner trait of the harness, every path, every history. *)
+(* C04 — property theorems for arbitrary nesting of List(...) (own bounds at every level) and Dict(K, ...) over the
+   inner traits of the harness: every trait type, every path (list indices and dict keys), every mutator of list and
+   dict at the end of the path, whole-value assignment, every history. *)
 From Coq Require Import ZArith List Bool.
 From TV Require Import Common.PySlice Common.PyList Common.Harness C05.Normalize C05.Model C05.Law
   C04.Model C04.Law C04.Corr C04.Deep C04.DeepProofs.
@@ -37,13 +38,39 @@ Example depth3_nontrivial :
   let t := TList (TList (TList (TAtom VCInt) 0 (Some 2)) 1 None) 1 (Some 2) in
   let x := Lst [Lst [Lst [Atom 1]; Lst []]] in
   let h := deep_run t x
-             [DPath [0%nat; 0%nat] (GAppend (Atom 105)); DPath [0%nat; 0%nat] (GAppend (Atom 3));
-              DPath [0%nat; 1%nat] (GAppend (Atom 200)); DPath [0%nat] (GSetInt 1 (Lst [Atom 1; Atom 2; Atom 3]));
-              DPath [] (GAppend (Atom 7)); DPath [] (GAppend (Lst [Lst [Atom 109]])); DPath [] (GAppend (Lst [Lst []]));
-              DPath [0%nat] GClear; DPAssign (Lst [Lst [Lst [Atom 4; Atom 200]]]); DPAssign (Lst [Lst [Lst [Atom 104]]])] in
+             [DPath [PIdx 0%nat; PIdx 0%nat] (OnList (GAppend (Atom 105))); DPath [PIdx 0%nat; PIdx 0%nat] (OnList (GAppend (Atom 3)));
+              DPath [PIdx 0%nat; PIdx 1%nat] (OnList (GAppend (Atom 200))); DPath [PIdx 0%nat] (OnList (GSetInt 1 (Lst [Atom 1; Atom 2; Atom 3])));
+              DPath [] (OnList (GAppend (Atom 7))); DPath [] (OnList (GAppend (Lst [Lst [Atom 109]]))); DPath [] (OnList (GAppend (Lst [Lst []])));
+              DPath [PIdx 0%nat] (OnList GClear); DPAssign (Lst [Lst [Lst [Atom 4; Atom 200]]]); DPAssign (Lst [Lst [Lst [Atom 104]]])] in
   wfb t x = true /\
   map (fun p => dp_out (snd p)) h =
     [Ok tt; Raise TraitError; Raise TraitError; Raise TraitError; Raise TraitError; Ok tt; Raise TraitError;
      Raise TraitError; Raise TraitError; Ok tt] /\
   dp_after (snd (last h (DPAssign x, mkDP (Ok tt) x 0))) = Lst [Lst [Lst [Atom 4]]].
+Proof. vm_compute. repeat split; reflexivity. Qed.
+
+(* Non-vacuity: every list mutator (incl. remove, sort, *=) below the top level, and dict nodes: a
+   Dict(CInt, Dict(Int, List(Int, maxlen=2))) value mutated through dict keys and list indices *)
+Example all_mutators_and_dict_nodes :
+  let tl := TList (TList (TAtom VInt) 0 (Some 4)) 0 None in
+  let xl := Lst [Lst [Atom 3; Atom 1; Atom 2]; Lst [Atom 1]] in
+  let hl := deep_run tl xl
+              [DPath [PIdx 0%nat] (OnList (GSort false)); DPath [PIdx 0%nat] (OnList (GRemove (Atom 2)));
+               DPath [PIdx 0%nat] (OnList (GImul 2)); DPath [PIdx 0%nat] (OnList (GImul 2));
+               DPath [] (OnList (GSort false)); DPath [] (OnList (GRemove (Lst [Atom 1])))] in
+  let td := TDict VCInt (TDict VInt (TList (TAtom VInt) 0 (Some 2))) in
+  let xd := Dct [(1, Dct [(5, Lst [Atom 7])])] in
+  let hd := deep_run td xd
+              [DPath [PKey 1; PKey 5] (OnList (GAppend (Atom 8))); DPath [PKey 1; PKey 5] (OnList (GAppend (Atom 9)));
+               DPath [PKey 1] (OnDict (DgSetItem 6 (Lst [Atom 1; Atom 2; Atom 3])));
+               DPath [PKey 1] (OnDict (DgSetItem 106 (Lst [])));
+               DPath [] (OnDict (DgSetItem 102 (Dct [(4, Lst [Atom 200])])));
+               DPath [] (OnDict (DgSetItem 102 (Dct [(4, Lst [Atom 2])])));
+               DPath [PKey 2; PKey 4] (OnList (GPop None)); DPath [PKey 9] (OnDict DgClear)] in
+  wfb tl xl = true /\ wfb td xd = true /\
+  map (fun p => dp_out (snd p)) hl = [Ok tt; Ok tt; Ok tt; Raise TraitError; Ok tt; Ok tt] /\
+  dp_after (snd (last hl (DPAssign xl, mkDP (Ok tt) xl 0))) = Lst [Lst [Atom 1; Atom 3; Atom 1; Atom 3]] /\
+  map (fun p => dp_out (snd p)) hd =
+    [Ok tt; Raise TraitError; Raise TraitError; Raise TraitError; Raise TraitError; Ok tt; Ok tt; Raise OtherError] /\
+  dp_after (snd (last hd (DPAssign xd, mkDP (Ok tt) xd 0))) = Dct [(1, Dct [(5, Lst [Atom 7; Atom 8])]); (2, Dct [(4, Lst [])])].
 Proof. vm_compute. repeat split; reflexivity. Qed.
